@@ -1852,3 +1852,26 @@ def dataclass_constructors(tree):
     if done:
         _link(tree)
     return done
+
+
+def classmethod_constructors(tree):
+    """inside a @classmethod of a class that nothing in the module derives from, `cls(..)` builds an instance of that class:
+    read it as `K(..)` (the readers and rules speak about `Tree(..)`, `Token(..)` by name)"""
+    done = 0
+    derived = {b.id for c in ast.walk(tree) if isinstance(c, ast.ClassDef) for b in c.bases if isinstance(b, ast.Name)}
+    for cls in [c for c in ast.walk(tree) if isinstance(c, ast.ClassDef)]:
+        if cls.name in derived:
+            continue
+        for fn in [f for f in cls.body if isinstance(f, ast.FunctionDef)]:
+            if not any(isinstance(d, ast.Name) and d.id == 'classmethod' for d in fn.decorator_list) or not fn.args.args:
+                continue
+            me = fn.args.args[0].arg
+            if any(isinstance(n, ast.Name) and n.id == me and isinstance(n.ctx, (ast.Store, ast.Del)) for n in ast.walk(fn)):
+                continue
+            for n in ast.walk(fn):
+                if isinstance(n, ast.Name) and n.id == me and isinstance(n.ctx, ast.Load):
+                    n.id = cls.name         # cls(..), cls.make_binary(..): the class itself
+                    done += 1
+    if done:
+        _link(tree)
+    return done
